@@ -126,7 +126,7 @@ def _fresh_locals(idx: ProgramIndex, fi: FuncInfo) -> Set[str]:
                 ok = False
                 if isinstance(v, ast.Call):
                     fn = chain(v.func) or ""
-                    short = fn.split(".")[-1]
+                    short = v.func.attr if isinstance(v.func, ast.Attribute) else fn.split(".")[-1]
                     if short == "deepcopy" or short.startswith("get_fantasy_") or fn == "self.__class__" or short in ("amortized_exact_gp",):
                         ok = True
                     r = idx.resolve_expr(fi.module, v.func)
